@@ -63,6 +63,17 @@ func genMixedOps(rng *rand.Rand, g *GenesisSpec, nBlocks, maxTx int) []Op {
 		for i := 0; i < n; i++ {
 			ops = append(ops, genMixedTx(rng, g))
 		}
+		if rng.IntN(6) == 0 {
+			// a crowded tail: log-emitting Ethereum txs followed by Cosmos txs, so that with a small block gas limit the
+			// block's gas runs out at or after the last Ethereum tx
+			for i, k := 0, 1+rng.IntN(5); i < k; i++ {
+				ops = append(ops, Op{K: "eth", W: rng.IntN(g.Wallets), To: "c:logs", Data: hexWord(pick(rng, 1, 2, 3, 7)), Gas: "i+200000", Price: "b+1", Tip: "1", Typ: pick(rng, 0, 2)})
+			}
+			for i, k := 0, 1+rng.IntN(5); i < k; i++ {
+				w := rng.IntN(g.Wallets)
+				ops = append(ops, Op{K: "bank", W: w, To: fmt.Sprintf("w%d", (w+1)%g.Wallets), Val: "1", Denom: BaseDenom, Price: "b+5", Gas: pick(rng, "200000", "120000")})
+			}
+		}
 		blk := Op{K: "block", Dt: pick(rng, 1, 5, 5, 6, 60), Prop: rng.IntN(4), Byz: rng.IntN(4) == 0}
 		ops = append(ops, blk)
 		if rng.IntN(12) == 0 {
